@@ -116,6 +116,10 @@ def generate(rng, tier):
         R.mkprog(body=[["expect", []], ["expect", []], ["detail", [1, [1]], 1]]),
     ]
     cases = [{"prog": R.retoken(p)} for p in fixed]
+    # force_failure set in setUp / in a cleanup, setUp ending in every behaviour (fix 889980a): the forced failure
+    # gets its traceback, the expectation's details and "Failed expectation" arrive
+    for p, _ in R.setup_force_programs(details=True):
+        cases.append({"prog": p})
     n = 5000 if tier == "quick" else 90000
     for k in range(n):
         feats = FEATS if k % 4 else frozenset(["details", "cells"])
